@@ -151,6 +151,87 @@ func work(w *mon.W) {
 	srv := &sview{rig.NewEngine(sopt, func(e *route.Engine) { e.NoRoute(obs.Handle) }), obs}
 	w.Cases("conn", uint64(w.Pick(40000, 1500000)), func(c *mon.Case) { oneConn(w, c, getC, srv) })
 	w.Cases("redirect", uint64(w.Pick(600, 20000)), func(c *mon.Case) { redirectCase(w, c, getC) })
+	w.Cases("get-helper", uint64(w.Pick(400, 10000)), func(c *mon.Case) { getHelperCase(w, c, getC) })
+}
+
+// getHelperCase: the Get / Post helpers return what Do plus reading the body returns: the
+// complete body, or an error when the response is cut off — in buffered and streaming mode.
+func getHelperCase(w *mon.W, c *mon.Case, getC func(ccfg) *cengine) {
+	if hangs >= 3 {
+		return
+	}
+	r := c.R
+	cf := ccfg{stream: r.Bool()}
+	ce := getC(cf)
+	body := wire.PosBody(int(c.I), r.Int(10, 100, 5000, 9000, 20000))
+	chunked := r.Bool()
+	cut := r.Chance(2)
+	var wb []byte
+	if chunked {
+		wb = []byte(fmt.Sprintf("HTTP/1.1 200 OK\r\nTransfer-Encoding: chunked\r\n\r\n%x\r\n%s\r\n0\r\n\r\n", len(body), body))
+	} else {
+		wb = []byte(fmt.Sprintf("HTTP/1.1 200 OK\r\nContent-Length: %d\r\n\r\n%s", len(body), body))
+	}
+	if cut {
+		// the peer goes away inside the body (after the head, before the body's end)
+		head := bytes.Index(wb, []byte("\r\n\r\n")) + 4
+		wb = wb[:head+1+r.Intn(len(body)-2)]
+	}
+	fr, _ := wire.FragSchedule(r, wb, nil)
+	ce.d.Buf = 4096
+	served := false
+	ce.d.Next = func() (net.Conn, error) {
+		if served {
+			return crig.NewSeqConn(nil, true), nil
+		}
+		served = true
+		return crig.NewSeqConn([][][]byte{fr}, true), nil
+	}
+	defer ce.hc.CloseIdleConnections()
+	post := r.Chance(3)
+	desc := fmt.Sprintf("helper=%s streaming=%v response: %d-byte body, chunked=%v, cut off inside the body=%v", map[bool]string{true: "Post", false: "Get"}[post], cf.stream, len(body), chunked, cut)
+	c.Detail = func() interface{} { return map[string]interface{}{"family": "get-helper", "exchange": desc} }
+	type out struct {
+		status int
+		body   []byte
+		err    error
+		pv     interface{}
+	}
+	ch := make(chan out, 1)
+	go func() {
+		var o out
+		defer func() { o.pv = recover(); ch <- o }()
+		if post {
+			o.status, o.body, o.err = ce.hc.Post(context.Background(), nil, "http://peer/x", nil)
+		} else {
+			o.status, o.body, o.err = ce.hc.Get(context.Background(), nil, "http://peer/x")
+		}
+	}()
+	var o out
+	select {
+	case o = <-ch:
+	case <-time.After(20 * time.Second):
+		hangs++
+		c.Violate("hang", "the helper did not return: %s", desc)
+		return
+	}
+	w.Count("get_helper_calls", 1)
+	if o.pv != nil {
+		c.Violate("panic@helper", "%s: panic %v", desc, o.pv)
+		return
+	}
+	if cut {
+		w.Count("get_helper_cut_off_responses", 1)
+		if o.err == nil {
+			c.Violate("response-mismatch", "%s: the helper returned status %d, %d body bytes and a nil error for a response that ends inside its body", desc, o.status, len(o.body))
+		}
+		return
+	}
+	if o.err != nil || o.status != 200 || !bytes.Equal(o.body, body) {
+		c.Violate("response-mismatch", "%s: the helper returned status %d, %d body bytes, err %v", desc, o.status, len(o.body), o.err)
+		return
+	}
+	w.Shape(mon.Hash64("get-helper", desc))
 }
 
 // redirectCase: DoRedirects against a peer that answers 30x + Location, then 200. Every
@@ -594,7 +675,21 @@ func oneConn(w *mon.W, c *mon.Case, getC func(ccfg) *cengine, srv *sview) {
 		if a.SkipBody {
 			prep = func(resp *protocol.Response) { resp.SkipBody = true }
 		}
+		// how much of the response the client had taken off the connection when Do returned
+		takenBefore, takenAtReturn := 0, -1
+		if len(conns) > 0 {
+			takenBefore = conns[len(conns)-1].Delivered()
+		}
+		nconnsBefore := len(conns)
+		crig.AtReturn = func() {
+			if len(conns) == nconnsBefore && nconnsBefore > 0 {
+				takenAtReturn = conns[nconnsBefore-1].Delivered() - takenBefore
+			} else if len(conns) == nconnsBefore+1 {
+				takenAtReturn = conns[nconnsBefore].Delivered()
+			}
+		}
 		o := crig.DoInto(ce.hc, req, ownResp, 20*time.Second, prep)
+		crig.AtReturn = nil
 		if ownResp != nil {
 			w.Count("exchanges_into_one_response_object", 1)
 			if a.SkipBody {
@@ -652,6 +747,15 @@ func oneConn(w *mon.W, c *mon.Case, getC func(ccfg) *cengine, srv *sview) {
 			}
 			c.Violate("do-error", "%s: Do returned %v for a conforming response", tag, o.Err)
 			return
+		}
+		// ---- a streamed response is handed over after a bounded read-ahead (the head and at
+		// most 8 KiB + the limit's slack of body), not after the whole body, whatever its framing
+		if cf.stream && o.Err == nil && !o.Hang && !a.SkipBody && a.Method != "HEAD" && len(p.Body) >= 60000 && takenAtReturn >= 0 && stallResp != i {
+			w.Count("streamed_big_responses_read_ahead_checked", 1)
+			if takenAtReturn > 30000 {
+				c.Violate("stream-not-streamed", "%s: streaming client, response body of %d bytes (mode %s): Do returned only after %d bytes of the response had been read off the connection (a streamed body is read ahead by at most 8 KiB)", tag, len(p.Body), p.Mode, takenAtReturn)
+				return
+			}
 		}
 		// ---- response intact
 		if msg := compareResp(o, p, a, cf); msg != "" {
